@@ -80,6 +80,9 @@ func init() {
 			c.Lay = make([]byte, n)
 			for i := range c.Lay {
 				c.Lay[i] = byte(uni(t, "lay", 0, 29))
+				if pct(t, "lay_ext", 20) {
+					c.Lay[i] = byte(uni(t, "lay_x", 100, 159)) // tabs, CR LF, keywords in upper / title case
+				}
 			}
 			if pct(t, "plain_layout", 8) {
 				c.Lay = nil
